@@ -76,6 +76,13 @@ func c01Run(c *mon.Ctx, aText, bText string, o OptSet) (string, map[string]any) 
 	if !P.Equals(ReadJ(bText), o.O()...) {
 		return "patched document does not Equal b under the same options", map[string]any{"diff": ref.HunksString(hs), "patched": P.Json()}
 	}
+	if sharedContainer(B) == "" {
+		// b holds every container once: the patched document (a fresh parse of a, patched) may share nodes
+		// with b, but it must not hold one container at two places either
+		if m := sharedContainer(P); m != "" {
+			return "the patched document holds one container at two places (" + m + "): a later in-place patch of one changes the other", map[string]any{"diff": ref.HunksString(hs), "patched": P.Json()}
+		}
+	}
 	p := Plain(P)
 	if !ref.Eq(p, b, o.Reading) {
 		return "patched document differs from b under the " + o.Reading.String() + " reading (independent canonical form)",
